@@ -624,6 +624,8 @@ hwloc__osdev_type_snprintf_normal(char * __hwloc_restrict string, size_t size,
         ostype &= ~names[i].type;
       }
     }
+    /* all known types were handled above, remaining bits are unknown (e.g. imported from XML), ignore them */
+    break;
   }
 
   if (prefix == ',') {
